@@ -31,6 +31,8 @@ MC_BYTESCURSOR = dict(module="MC_BytesCursor", cfg="MC_BytesCursor.cfg", workers
 
 MC_IOADAPTERS = dict(module="MC_IoAdapters", cfg="MC_IoAdapters.cfg", workers=2)
 
+MC_SKIP = dict(module="MC_Skip", cfg="MC_Skip.cfg", cfg_thorough="MC_Skip_thorough.cfg", workers=4)
+
 MC_DECODER_LONG = dict(module="MC_Decoder", cfg="MC_Decoder_long.cfg", workers=8, timeout=2400, tiers=["thorough"])
 MC_DECODER_CHUNK = dict(module="MC_Decoder", cfg="MC_Decoder_chunk.cfg", workers=8, timeout=3000, tiers=["thorough"])
 
@@ -82,8 +84,8 @@ PROPS = {
     "C08": dict(level="model_checking", mc=[MC_DECODER, MC_BYTESCURSOR, MC_IOADAPTERS], steps=[trace(1, 2)]),
     "C11": dict(level="model_checking", mc=[MC_DECODER], steps=[trace(1, 6), dict(kind="apalache", module="Ind_Depth")]),
     "C12": dict(level="model_checking", mc=[MC_DECODER], steps=[trace(1, 4), dict(kind="apalache", module="Ind_Mem")]),
-    "C13": dict(level="model_checking", mc=[MC_FORMAT], steps=[trace(1, 10)]),
+    "C13": dict(level="model_checking", mc=[MC_FORMAT, MC_DERIVE, MC_SKIP], steps=[trace(1, 10)]),
     "C14": dict(level="model_checking", mc=[MC_FORMAT], steps=[trace(2, 12)]),
-    "C18": dict(level="model_checking", mc=[MC_FORMAT], steps=[trace(2, 12)]),
+    "C18": dict(level="model_checking", mc=[MC_FORMAT, MC_SKIP], steps=[trace(2, 12)]),
     "C19": dict(level="model_checking", mc=[MC_DECODER], steps=[trace(1, 6), dict(kind="apalache", module="Ind_Count")]),
 }
